@@ -324,6 +324,7 @@ PROBES = {
     "sliceCheck": {"dims": [3], "subs": [["range", ["lit", 0], ["lit", 2]]], "loop": None, "ctx": "eq"},
     "loopCheck": {"dims": [3], "subs": [["loop", 1, -1]], "loop": [["lit", 1], ["lit", 3]], "ctx": "eq"},
     "stepOrder": {"dims": [4], "subs": [["range3", ["lit", 1], ["lit", 2], ["lit", 3]]], "loop": None, "ctx": "eq"},
+    "padMissing": {"dims": [2, 3], "subs": [["idx", ["lit", 2]]], "loop": None, "ctx": "eq"},
 }
 
 
@@ -342,11 +343,18 @@ def probe_cfg(ctx):
     cfg["loopCheck"] = r["o"] == "error"
     r = run_real(PROBES["stepOrder"])
     cfg["stepOrder"] = r == {"o": "sel", "rows": [[[0, 0]], [[2, 0]]]}
+    # proposed fix C23-3 (open finding C23-F4): probed until the finding is marked fixed, required afterwards
+    r = run_real(PROBES["padMissing"])
+    cfg["padMissing"] = r == {"o": "sel", "rows": [[[1, 0], [1, 1], [1, 2]]]}
+    used = dict(CURRENT_CFG, padMissing=cfg["padMissing"])
+    for k in ctx.known:
+        if k["id"] == "C23-F4" and k.get("status") == "fixed":
+            used["padMissing"] = True
     ctx.extra["model_cfg_probed"] = cfg
-    ctx.extra["model_cfg_used"] = CURRENT_CFG
-    if cfg != CURRENT_CFG:
-        ctx.notes.append("probe inputs behave like variant %s, the model is asked for %s" % (cfg, CURRENT_CFG))
-    return dict(CURRENT_CFG)
+    ctx.extra["model_cfg_used"] = used
+    if cfg != used:
+        ctx.notes.append("probe inputs behave like variant %s, the model is asked for %s" % (cfg, used))
+    return used
 
 
 def nontrivial(case):
